@@ -21,7 +21,7 @@ K_DUPOBJ = "object-extension-repeats-implements"
 K_NEST = "type-nesting-exceeds-parser-recursion-limit"
 K_TODO = "operation-field-of-union-or-custom-scalar-type-panics"
 K_RECURSE = "operation-unbounded-selection-recursion"
-K_OPDEPTH = "operation-nesting-exceeds-validator-recursion-limit"
+K_OPDEPTH = "operation-nesting-exceeds-recursion-limits"
 
 HEAD = "ABCDEFGHIJKLMNOPQRSTUVWXYZabcdefghijklmnopqrstuvwxyz"
 BODY = HEAD + "_0123456789"
@@ -287,8 +287,11 @@ def run(ctx):
             known = K_TODO
         elif obs.startswith("died") and wit_class.get(c) == K_RECURSE:
             known = K_RECURSE
-        elif bad and bad[0] == "validate/RecursionLimitError" and nesting(unhexs(obs.split(" ")[1])) >= 32:
-            known = K_OPDEPTH
+        elif bad and bad[0].startswith("validate/") and nesting(unhexs(obs.split(" ")[1])) >= 32:
+            kinds = set(bad[0][len("validate/"):].split("+"))
+            if kinds & {"RecursionLimitError", "ParserLimit"} and \
+                    kinds <= {"RecursionLimitError", "ParserLimit", "MissingSubselection"}:
+                known = K_OPDEPTH
         if known and ctx.known_hit(known):
             ofam["known"] += 1
             continue
